@@ -349,7 +349,7 @@ func c09Run(b core.Batch, r *core.Recorder) {
 func c09Plan(tier string, seed int64) []core.Batch {
 	stride := 256
 	if tier == "thorough" {
-		stride = 64
+		stride = 16
 	}
 	var bs []core.Batch
 	for _, tr := range []string{"plain", "tunnel"} {
